@@ -50,6 +50,26 @@ fn stream(r: &mut Rng, chunked: bool, eintr: bool) -> StreamSpec {
 /// token of the same program, lost, duplicated, swapped, a line lost or duplicated).
 pub fn sibling(r: &mut Rng, job: &JobSpec) -> JobSpec {
     const KINDS: [&str; 8] = ["own_subst", "own_subst", "own_subst", "lost_token", "dup_token", "swap_tokens", "lost_line", "token_subst"];
+    // a program with include files: half of the time the variant differs in one included file instead
+    // (same file names, other content - what a cache keyed by file name would confuse)
+    let inc_files: Vec<usize> = (0..job.includes.len()).filter(|i| matches!(job.includes[*i].kind, IncKind::File(_))).collect();
+    if !inc_files.is_empty() && r.chance(1, 2) {
+        let fi = *r.pick(&inc_files);
+        let mut j = job.clone();
+        if let IncKind::File(b) = &job.includes[fi].kind {
+            let mut content = b.0.clone();
+            let kind = *r.pick(&KINDS);
+            let sp = faults::space(kind, &content);
+            if sp > 0 {
+                content = faults::nth(kind, &content, r.usize_below(sp)).apply(&content);
+            }
+            j.includes[fi].kind = IncKind::File(Bytes(content));
+        }
+        j.label = format!("sibling of {} (include file {} varied)", job.label, job.includes[fi].path);
+        j.reader = StreamSpec::canonical();
+        j.writer = StreamSpec::canonical();
+        return j;
+    }
     let mut src = job.source.0.clone();
     let n = 1 + r.usize_below(2);
     let mut desc = Vec::new();
